@@ -362,6 +362,54 @@ def run(ctx):
                   "decrypt accepts blobs from %s bytes; the smallest blob encrypt can emit is %s" % (lo, smallest),
                   "decrypt_seed refuses blobs shorter than %s bytes, but encrypt_seed emits %s bytes for a 16-byte wrapped key and a 32-byte seed" % (lo, smallest), dec.loc(first))
 
+    # ------------------------------------------------------------------ one call does not depend on another: "a provider returning a different data key yields an
+    # error" and "decrypting with the same provider returns the seed" are statements about every single call, whatever was decrypted before.
+    # (a) the key the ciphertext is opened with is what the provider returned for this blob's wrapped key in this call - on every path, not a remembered copy;
+    # (b) nothing reachable from encrypt_seed / decrypt_seed reads or writes a static of this crate (a memo, a counter, a last-result cache).
+    dec_ = ctx.fn(DEC)
+    dev_ = W.ev(DEC)
+    nkey = 0
+    for bb, t in dec_.calls():
+        if strip_generics(t["fn"].get("path", "")).endswith("UnboundKey::new"):
+            nkey += 1
+            kt = values.strip_payload(W.expand(dev_.call_args(bb)[1]))
+            alts = kt[1] if isinstance(kt, tuple) and kt and kt[0] == "phi" else (kt,)
+            srcs = []
+            for a in alts:
+                a0 = values.strip_payload(a)
+                if is_call(a0) and callee_name(a0[1]) == "from_residual":
+                    continue        # the `?` that leaves the function: no key on that path
+                srcs.append(a0)
+            okk = bool(srcs) and all(is_call(a0) and a0[1].endswith("KmsProvider::decrypt_dek") and a0[2] and a0[2][0] == ("param", DEC, 1) for a0 in srcs)
+            ctx.check("stateless", "decrypt_seed/key-is-this-calls-provider-answer", okk, "the data key is kms.decrypt_dek(wrapped key of this blob), obtained in this call",
+                      "decrypt_seed can open the ciphertext with a key that is not this call's answer of the provider (%s): a faulty provider goes unnoticed, or an earlier fault sticks"
+                      % "; ".join(fmt(a0)[:80] for a0 in srcs if not (is_call(a0) and a0[1].endswith("KmsProvider::decrypt_dek"))), dec_.loc(bb))
+    ctx.floor("stateless", nkey, 1, "AEAD key constructions in decrypt_seed")
+    reach_s, _ext_s, _par_s = P.reach([ENC, DEC])
+    touched = []
+    for pth in sorted(reach_s):
+        f_ = P.fns[pth]
+        for bl in f_.blocks:
+            if bl.idx not in f_.reachable():
+                continue
+            for st in bl.stmts:
+                if st["k"] == "assign":
+                    def statics(j):
+                        if isinstance(j, dict):
+                            if isinstance(j.get("static"), str):
+                                yield j["static"]
+                            for v in j.values():
+                                yield from statics(v)
+                        elif isinstance(j, list):
+                            for v in j:
+                                yield from statics(v)
+                    for sname in statics(st["rv"]):
+                        if sname.startswith("roughenough"):
+                            touched.append((f_, bl.idx, sname))
+    ctx.check("stateless", "no-process-wide-state", not touched, "nothing reachable from encrypt_seed / decrypt_seed touches a static of this crate (%d functions)" % len(reach_s),
+              "%s uses the static %s: the result of one call can depend on earlier calls" % (touched[0][0].path.split("::", 1)[-1], touched[0][2]) if touched else "",
+              touched[0][0].loc(touched[0][1]) if touched else None)
+
 
 def lenlike(t):
     """A length (or constant) possibly converted between integer types: `x.len() as u16`, `u16::try_from(x.len())?`, `N as u16`."""
